@@ -31,6 +31,21 @@ var c01Shapes = map[string]int{ // name -> proto-encoded size
 	"G-": 8*1024*1024 - 1, "G": 8 * 1024 * 1024, "G+": 8*1024*1024 + 1,
 }
 
+// c01Sweep: one sequence holding a message of every encodable size up to 600
+// bytes (shapes "n0", "n2", ... registered in c01Shapes).
+var c01Sweep = func() []string {
+	var out []string
+	for n := 0; n <= 600; n++ {
+		if n == 1 {
+			continue
+		}
+		name := fmt.Sprintf("n%d", n)
+		c01Shapes[name] = n
+		out = append(out, name)
+	}
+	return out
+}()
+
 func c01Payload(shape string, pos int) []byte {
 	if shape == "u" {
 		// a message that also carries fields its Go type does not declare
@@ -73,13 +88,16 @@ func c01Cfgs() []Cfg {
 	var out []Cfg
 	for _, p := range AllProtos {
 		for _, js := range []bool{false, true} {
-			for _, comp := range append(append([]Comp{}, AllComps...), CompAsym) {
+			for _, comp := range append(append([]Comp{}, AllComps...), CompAsym, CompNone) {
 				for _, kind := range AllKinds {
 					for _, h := range []int{2, 1} {
 						for _, m := range []memhttp.ReqMode{memhttp.ReqEager, memhttp.ReqLazy} {
 							cfg := Cfg{Proto: p, JSON: js, Comp: comp, Kind: kind, HTTP: h, ReqMode: m}
-							if comp == CompAsym && m != memhttp.ReqEager {
+							if (comp == CompAsym || comp == CompNone) && m != memhttp.ReqEager {
 								continue
+							}
+							if comp == CompNone && (kind == KUnary || h != 2) {
+								continue // CompNone configurations run the size sweep only (streams)
 							}
 							if cfg.Valid() {
 								out = append(out, cfg)
@@ -106,6 +124,10 @@ func c01Batch(cfg Cfg, thorough bool) []c01Case {
 		maxLen = 4
 	}
 	seqs := seqsUpTo(alpha, maxLen)
+	if cfg.Comp == CompNone {
+		// nothing is compressed in either direction: one stream with a message of every size
+		seqs = [][]string{c01Sweep}
+	}
 	if !thorough && !cfg.JSON && cfg.ReqMode == memhttp.ReqEager && cfg.HTTP == 2 && cfg.Comp == CompDefault {
 		// one message above the 8 MiB recycle cap at each position of a length-2 sequence
 		seqs = append(seqs, []string{"G+", "z"}, []string{"a", "G+"})
